@@ -372,7 +372,7 @@ package xsync
 //@ func (*Map).Load
 //@   serves C13 C14
 //@   requires mapInv(m)
-//@   requires private mapRI(m)
+//@   requires private mapRIc(m) && view(m) == tview[tab(m)]
 //@   let o = old(view(m))[key]
 //@   loop for.body: invariant {C11,C03} walk: own(tab(m), b) && ridx[b] == idxOf(tab(m), key) && (present(o) ==> pos[slotb[tab(m)][key]] >= pos[b])
 //@   loop for.body: decreases clen[rootOf(tab(m), b)] - pos[b]
@@ -468,7 +468,7 @@ package xsync
 //@ func (*MapOf[K, V]).Load
 //@   serves C13 C14
 //@   requires mapInv(m)
-//@   requires private mapOfRI(m)
+//@   requires private mapOfRIc(m) && view(m) == tviewOf[tabOf(m)]
 //@   let o = old(view(m))[key]
 //@   loop for.body: invariant {C11,C04,C10} walk: own(tabOf(m), b) && ridx[b] == idxOfO(m, tabOf(m), key) && (present(o) ==> pos[slotbOf[tabOf(m)][key]] >= pos[b])
 //@   loop for.body: decreases clen[rootOfO(tabOf(m), b)] - pos[b]
